@@ -31,6 +31,9 @@ def run(F, X, rep):
     # not inside the raced (cancellable) reader future
     import p_c17
     p_c17.r2(F, X, rep, "C20-H2")
+    # the poll task lives until shutdown: nothing it runs through (its own code, the logging layer every log call passes
+    # through) can panic
+    p_c17.p(F, X, rep, "C20-P", extra_files=("src/block_watcher.rs",))
 
 
 def c_one_cell(F, X, rep, rid="C20-C"):
